@@ -20,13 +20,15 @@
      file_annos_ok f       the annotations of every node have pairwise distinct keys (what the parser
                            builds: Annotations.Append groups repeated keys)
      distinct_basenames f  no two includes of f have the same base name
+     includes_named f      no include has an empty file name or prefix
      includes_plain f      every include was parsed and the file found has the base name the statement wrote
      prog_ok P             every file once, under its own Filename
      fdesc_ok d            the maps of d have pairwise distinct keys (Go maps), type numbers fit 32 bits
      wfb (enc_fdesc d)     strings / lists shorter than 2^31, ids 32 bit: d fits the wire format *)
 From Coq Require Import List Bool NArith ZArith.
 From Coq.Strings Require Import Byte.
-From Verif Require Import Base.Bytes Wire.WVal Wire.Codec Idl.Ast Idl.AstUtil Idl.Reflect Idl.ReflectFacts.
+From Verif Require Import Base.Bytes Wire.WVal Wire.Codec Idl.Ast Idl.AstUtil Idl.Resolve Idl.ResolveSpec Idl.Reflect Idl.ReflectFacts
+  Idl.ReflectResolveFacts.
 Import ListNotations.
 Local Open Scope list_scope.
 
@@ -102,13 +104,33 @@ Theorem C15_marshal_roundtrip : forall (zip : bytes -> bytes) (unzip : bytes -> 
 Proof. exact marshal_roundtrip. Qed.
 Print Assumptions C15_marshal_roundtrip.
 
-(* as the property is worded for Go maps: equal up to the order of map entries *)
-Theorem C15_marshal_roundtrip_mod_order : forall (zip : bytes -> bytes) (unzip : bytes -> option bytes),
+(* Go maps have no order.  fdesc_equiv: equal up to the order in which the entries of the maps
+   (annotations, includes, namespaces, Extra, value_map) are listed, at every level — an equivalence
+   relation, and equivalent descriptors are in the domain of the round trip together *)
+Theorem C15_fdesc_equiv_equivalence :
+  (forall d, fdesc_equiv d d) /\ (forall a b, fdesc_equiv a b -> fdesc_equiv b a) /\
+  (forall a b c, fdesc_equiv a b -> fdesc_equiv b c -> fdesc_equiv a c).
+Proof. exact (conj fdesc_equiv_refl (conj fdesc_equiv_sym fdesc_equiv_trans)). Qed.
+Print Assumptions C15_fdesc_equiv_equivalence.
+
+Theorem C15_fdesc_ok_equiv : forall a b, fdesc_equiv a b -> fdesc_ok a = true -> fdesc_ok b = true.
+Proof. exact fdesc_ok_equiv. Qed.
+Print Assumptions C15_fdesc_ok_equiv.
+
+(* decoding the encoding of ANY entry-order permutation d' of the maps of a descriptor d (whatever
+   order the writer picks: the real one sorts by encoded key) yields a descriptor equivalent to d *)
+Theorem C15_wire_roundtrip_any_order : forall d d',
+  fdesc_ok d = true -> fdesc_equiv d d' ->
+  exists d'', dec_fdesc (enc_fdesc d') = Some d'' /\ fdesc_equiv d'' d.
+Proof. exact wire_roundtrip_any_order. Qed.
+Print Assumptions C15_wire_roundtrip_any_order.
+
+Theorem C15_marshal_roundtrip_any_order : forall (zip : bytes -> bytes) (unzip : bytes -> option bytes),
   (forall x, unzip (zip x) = Some x) ->
-  forall d, fdesc_ok d = true -> wfb (enc_fdesc d) = true ->
-  exists d', unmarshal unzip (marshal zip d) = Some d' /\ fdesc_equiv d' d = true.
-Proof. exact marshal_roundtrip_mod_order. Qed.
-Print Assumptions C15_marshal_roundtrip_mod_order.
+  forall d d', fdesc_ok d = true -> fdesc_equiv d d' -> wfb (enc_fdesc d') = true ->
+  exists d'', unmarshal unzip (marshal zip d') = Some d'' /\ fdesc_equiv d'' d.
+Proof. exact marshal_roundtrip_any_order. Qed.
+Print Assumptions C15_marshal_roundtrip_any_order.
 
 (* every descriptor GetFileDescriptor builds is in the domain of the round trip *)
 Theorem C15_descriptor_of_ok : forall f, fdesc_ok (descriptor_of f) = true.
@@ -194,6 +216,52 @@ Theorem C15_lookup_without_path : forall A (get : registry -> fdesc -> bytes -> 
   lookup_in get reg name [] = Some x.
 Proof. exact @lookup_without_path. Qed.
 Print Assumptions C15_lookup_without_path.
+
+(* against property C05's model of semantic.ResolveSymbols: resolution keeps the definitions of every
+   file, and a type expression the resolver bound through an include (ty_ref = include index idx and
+   name m) is found by every descriptor lookup as the definition m of the file include idx refers
+   to, which has such a definition of a type kind *)
+Theorem C15_resolve_keeps_defs : forall p r,
+  resolve_program p = Ok r ->
+  forall gn g, prog_file p gn = Some g -> exists g', prog_file r gn = Some g' /\ file_defs g' = file_defs g.
+Proof. exact resolve_keeps_defs. Qed.
+Print Assumptions C15_resolve_keeps_defs.
+
+Theorem C15_qualified_type_lookup_right : forall p r fn f' t m idx,
+  parsed_program p = true -> resolve_program p = Ok r -> prog_ok r = true ->
+  prog_file r fn = Some f' -> f_name2cat f' <> None ->
+  distinct_basenames f' = true -> includes_plain f' = true -> includes_named f' = true ->
+  In t (file_occs f') -> ty_ref t = Some (Ref m idx) -> m <> [] ->
+  exists i gn g' k,
+    nth_include f' idx = Some i /\ in_ref i = Some gn /\ prog_file r gn = Some g' /\
+    lookup m (file_defs g') = Some k /\ is_type_kind k = true /\
+    get_struct (registry_of r) (descriptor_of f') (ty_name t) = omap (struct_desc (f_filename g')) (find_struct g' m) /\
+    get_union (registry_of r) (descriptor_of f') (ty_name t) = omap (struct_desc (f_filename g')) (find_union g' m) /\
+    get_exception (registry_of r) (descriptor_of f') (ty_name t) = omap (struct_desc (f_filename g')) (find_exception g' m) /\
+    get_enum (registry_of r) (descriptor_of f') (ty_name t) = omap (enum_desc (f_filename g')) (find_enum g' m) /\
+    get_typedef (registry_of r) (descriptor_of f') (ty_name t) = omap (typedef_desc (f_filename g')) (find_typedef g' m).
+Proof. exact qualified_type_lookup_right. Qed.
+Print Assumptions C15_qualified_type_lookup_right.
+
+(* GetAllMethods: the methods of the service followed by those of its base service, and so on, for an
+   extends chain of any length (links inside a file or through an include prefix) *)
+Theorem C15_all_methods_chain : forall P, prog_ok P = true -> forall f s l, base_chain P f s l ->
+  forall fuel, (List.length l <= S fuel)%nat ->
+  all_methods fuel (registry_of P) (service_desc (f_filename f) s) = chain_methods l.
+Proof. exact all_methods_chain. Qed.
+Print Assumptions C15_all_methods_chain.
+
+Theorem C15_get_all_methods_chain : forall P f s l,
+  prog_ok P = true -> base_chain P f s l -> (List.length l <= S (chain_fuel (registry_of P)))%nat ->
+  get_all_methods (registry_of P) (service_desc (f_filename f) s) = chain_methods l.
+Proof. exact get_all_methods_chain. Qed.
+Print Assumptions C15_get_all_methods_chain.
+
+Theorem C15_method_from_all_chain : forall P f s l n,
+  prog_ok P = true -> base_chain P f s l -> (List.length l <= S (chain_fuel (registry_of P)))%nat ->
+  get_method_from_all (registry_of P) (service_desc (f_filename f) s) n = first_named md_name (chain_methods l) n.
+Proof. exact method_from_all_chain. Qed.
+Print Assumptions C15_method_from_all_chain.
 
 (* ---- each Go type maps to its own descriptor and back ---- *)
 
